@@ -280,6 +280,21 @@ def oracle_C08(meta, kw, res):
                     gg = eval_expr(expr, te_ + sg * tau, [a + sg * tau * b for a, b in zip(ye_, fe)])
                     if gg == gg and abs(gg) != math.inf:
                         along = max(along, abs(gg - g))
+                # the same along the computed trajectory itself: the step (pair of consecutive samples) that brackets the
+                # event is as long as the time tolerance or shorter on picosecond spans, where the refinement has nothing
+                # to do and any point of the step is the root to root-finder accuracy; in general the mean slope of g
+                # over the bracketing samples times the tolerance is allowed as well (the linearisation above sees a
+                # slope of 0 where f vanishes, e.g. y' = -2 s y^2 at s = 0)
+                ts_, ys_ = res.get("t", []), res.get("y", [])
+                for ka in range(len(ts_) - 1):
+                    ta_, tb_ = ts_[ka], ts_[ka + 1]
+                    if min(ta_, tb_) <= te_ <= max(ta_, tb_) and ta_ != tb_:
+                        ga_, gb_ = eval_expr(expr, ta_, ys_[ka]), eval_expr(expr, tb_, ys_[ka + 1])
+                        if ga_ == ga_ and gb_ == gb_ and abs(ga_) != math.inf and abs(gb_) != math.inf:
+                            along = max(along, abs(gb_ - ga_) * min(1.0, 4.0 * tau / abs(tb_ - ta_)))
+                        break
+                if kw.get("t_eval") is not None and 4.0 * tau >= 1e-3 * abs(xend - x0):
+                    continue        # samples are not the steps and the tolerance is not small against the span
                 if g == g and abs(g) > 1e-6 * scale + 4.0 * along:
                     out.append(("event-not-a-root", "event %d reported at t=%r where g = %r (scale of g over the run %.3g): not a root of the event function" % (i, te_, g, scale)))
                     break
